@@ -35,6 +35,12 @@ pub fn shim_hashmap_into_vec<K: std::cmp::Eq + std::hash::Hash, V>(m: HashMap<K,
         }
 { m.into_iter().collect() }
 
+// R3b: `a.extend(b)` for two hash maps: every pair of b is inserted into a, b's value winning for a key both hold
+#[verifier::external_body]
+pub fn shim_hashmap_extend<K: std::cmp::Eq + std::hash::Hash, V>(a: &mut HashMap<K, V>, b: HashMap<K, V>)
+    ensures obeys_key_model::<K>() ==> final(a)@ == old(a)@.union_prefer_right(b@)
+{ a.extend(b) }
+
 // R8: `xs.iter().any(|e| e == &y)`; element equality is structural (derived PartialEq)
 #[verifier::external_body]
 pub fn shim_vec_contains<T: PartialEq>(v: &Vec<T>, x: &T) -> (r: bool)
